@@ -4,16 +4,15 @@
 SPECIFICATION LiveSpecEcho
 CONSTANTS
   Ups = {TRUE, FALSE}
-  Starts = {"ok", "nopath", "nochoice"}
+  Starts = {"ok", "nopath"}
   Vetoes = {"none", "can", "cno"}
-  MaxHdr = 2
-  MaxSrv = 2
-  MaxHout = 2
+  MaxHdr = 1
+  MaxSrv = 1
+  MaxHout = 1
   MaxCtrlC = 1
   MaxText = 1
   InitBeforePublish = FALSE
   ErrArms = {FALSE}
-INVARIANTS TypeOK VetoedHeaderStartsNothing CancelSentToWaiter SwallowOnlyWhileActive InputFlowsAfter
-           NotStuckButNoCmd ActiveHasHelper LongQuietEndsAll CursorBack QuiescentDef
-PROPERTIES HandBack ReturnedIsStable
+INVARIANTS TypeOK VetoedHeaderStartsNothing CancelSentToWaiter NotStuckButNoCmd ActiveHasHelper LongQuietEndsAll CursorBack QuiescentDef
+PROPERTIES HandBack ReturnedIsStable SwallowOnlyWhileActive InputFlowsAfter
 CHECK_DEADLOCK FALSE
